@@ -8,7 +8,7 @@ SPEC = {
 }
 
 CLAIM = {
-    "text": "Seeded generation of query-log file sets (quick: 1000 sets, thorough: 12000; one file, or rotated + current; 0 to about 1200 lines per file, line contents of 60 to 16383 bytes in five length classes, up to 4 MB per set in the quick tier and 10 MB in the thorough tier, strictly increasing RFC3339Nano timestamps with gaps from 1 ns to days, several UTC offsets; three profiles place a 16383-byte line at chosen byte distances from the edge of the 1.6 MB read window and from the first probe of the binary search, or make the file exactly one window large). The real newQLogFile/newQLogReader SeekStart, ReadNext and seekTS are run on them and compared with the generated line list: full backward sweeps before and after the seeks, seeks to present timestamps followed by 2 to 300 reads (also across the file boundary), seeks to absent timestamps (before the first, after the last, between neighbours, between the two files, empty files) which must report not-found/too-early/too-late and leave later reads intact. Every call runs under a 20 s watchdog; a hang or panic is a violation. Exploration: held on the cases observed, which the evidence counts.",
-    "note": "Unexported API is used because it is the property's observation point. The multi-file reader deliberately reports success for a timestamp later than a whole file (pinned by the product's own test); that is tolerated and counted as an unspecified-zone hit as long as the following reads return only entries older than the target, newest first. The obvious mapping of target class to error class is recorded, not asserted.",
+    "text": "Seeded generation of query-log file sets (quick: 1000 sets, thorough: 12000; one file, or rotated + current; 0 to about 1200 lines per file, line contents of 60 to 16383 bytes in five length classes, up to 4 MB per set in the quick tier and 10 MB in the thorough tier, strictly increasing RFC3339Nano timestamps with gaps from 1 ns to days, several UTC offsets; three profiles place a 16383-byte line at chosen byte distances from the edge of the 1.6 MB read window and from the first probe of the binary search, or make the file exactly one window large). The real newQLogFile/newQLogReader SeekStart, ReadNext and seekTS are run on them and compared with the generated line list: full backward sweeps before and after the seeks, seeks to present timestamps followed by 2 to 300 reads (also across the file boundary), seeks to absent timestamps (before the first, after the last, between neighbours, between the two files, empty files) which must report not-found/too-early/too-late and leave later reads intact. Reuse histories on one reader / one file object (SeekStart, seekTS present, seekTS absent before everything / between neighbours of either file / between the files / after everything, seekRecord with zero, present and absent times, ReadNext x n, about 14 steps, 3 per file set plus one per file) carry a model of the position from step to step; directly after a seek that reported an error the reads must continue from the position before the seek or from the start of the log, every record once, down to io.EOF. Every call runs under a 20 s watchdog; a hang or panic is a violation. Exploration: held on the cases observed, which the evidence counts.",
+    "note": "Unexported API is used because it is the property's observation point. The multi-file reader deliberately reports success for a timestamp later than a whole file (pinned by the product's own test); that is tolerated and counted as an unspecified-zone hit as long as the following reads return only entries older than the target, newest first. The obvious mapping of target class to error class is recorded, not asserted. Position after a failed seek: neither documented nor relied upon by the product (setQLogReader closes the reader when the seek fails); the unchanged code leaves the position untouched; the monitor accepts that or the start of the log and counts which.",
     "technique": "runtime monitor: generated-input oracle (the generated line list) over the real file readers, watchdog for non-termination",
 }
